@@ -818,6 +818,26 @@ pub fn families(nmax: usize) -> Vec<(String, Vec<Op>)> {
         out.push((format!("big: {} barriers", n), (0..n).flat_map(|i| vec![free(&nm(i)), Op::Barrier]).chain([free("x"), free("y"), Op::Barrier, free("z")]).collect()));
         out.push((format!("big: {} thread-local systems", n), (0..n).map(|_| Op::Tl(SysSpec { name: String::new(), reads: vec![], writes: vec![], time: 3, deps: vec![] })).chain([free("x")]).collect()));
     }
+    // a REJECTED registration (a second system under a name that is taken) in the middle of a sequence: the systems
+    // registered after it, and later dependants of that name, are planned as if the call had never been made
+    for chain in 0..=2usize {
+        for after in 1..=3usize {
+            let mut v: Vec<Op> = Vec::new();
+            let mut prev: Option<String> = None;
+            for i in 0..chain {
+                let n = format!("d{}", i);
+                v.push(s(n.clone(), &[], &[], 3, prev.iter().cloned().collect()));
+                prev = Some(n);
+            }
+            v.push(s("a".into(), &[], &[], 3, prev.iter().cloned().collect()));
+            v.push(s("a".into(), &[], &[0], 3, vec![]));
+            for i in 0..after {
+                v.push(s(format!("c{}", i), &[], &[], if i == 0 { 1 } else { 3 }, vec![]));
+            }
+            v.push(s("b".into(), &[], &[], 2, vec!["a".into()]));
+            out.push((format!("rejected-duplicate-then-dependent(chain of {} in front of the name, {} systems between)", chain, after), v));
+        }
+    }
     // names of every length 1..80 bytes and around the powers of two up to 1024 (inline buffers, length prefixes):
     // two conflicting systems and a dependent, so that the name is registered, looked up and printed
     for n in (1..=80usize).chain([127, 128, 129, 255, 256, 257, 511, 512, 513, 1023, 1024, 1025]) {
@@ -1129,6 +1149,8 @@ pub fn run_families(nmax: usize, props: Props, need: Need, deadline: Instant, th
                     st.max_depth = st.max_depth.max(ops.len());
                     let mut p = props;
                     p.c10_all = true;
+                    // (families may contain a rejected call: the rest of the sequence is checked as if it had not been made)
+                    p.continue_after_reject = true;
                     for vi in check_state(&p, ops, &info, &obs, false) {
                         col.add(Finding {
                             prop: vi.prop.to_string(),
